@@ -303,4 +303,93 @@ theorem run_enterLoop (c : Cfg) (par : Option Nat) (p : Nat) (e : XTree) (he : e
       rw [hac.1, hk.1, hac.2]
       simp [rootEv, evOf]
 
+/-! ### `tree.elements`: wrapped objects ↦ nodes
+
+Object identity of the wrapped etree objects is their pre-order index in the input; every
+`EtreeElementNode` / `CommentNode` / `ProcessingInstructionNode` constructor executes
+`tree.elements[elem] = self`, text nodes wrap nothing.  The registry is therefore the list of the
+non-text nodes in construction order, the k-th entry belonging to the k-th wrapped object. -/
+
+/-- the node wraps an etree object -/
+def wrapped (ev : Ev) : Bool := ev.node.kind != .text
+
+mutual
+/-- the etree objects of a subtree in pre-order (`elem.iter()`), as (kind, name) -/
+def srcsOne : XTree → List (Kind × Option String)
+  | .elem name _ _ _ kids _ => (.element, some name) :: srcsKids kids
+  | .comment _ _ => [(.comment, none)]
+  | .pi t _ _ => [(.pi, some t)]
+def srcsKids : List XTree → List (Kind × Option String)
+  | [] => []
+  | t :: ts => srcsOne t ++ srcsKids ts
+end
+
+def tagOf (ev : Ev) : Kind × Option String := (ev.node.kind, ev.node.name)
+
+theorem afterCreate_unwrapped (c : Cfg) (p : Nat) (t : XTree) : (afterCreate c p t).1.filter wrapped = [] := by
+  cases t with
+  | elem name nsmap attrib text kids tail => cases text <;> simp [afterCreate, textEv, wrapped]
+  | comment s tl => simp [afterCreate]
+  | pi t s tl => simp [afterCreate]
+
+theorem tailEvs_unwrapped (a p : Nat) (o : Option String) : (tailEvs a p o).1.filter wrapped = [] := by
+  cases o <;> simp [tailEvs, textEv, wrapped]
+
+theorem wrapped_evOf (a p : Nat) (t : XTree) : wrapped (evOf a p t) = true := by
+  cases t <;> simp [wrapped, evOf]
+
+theorem wrapped_rootEv (par : Option Nat) (p : Nat) (t : XTree) : wrapped (rootEv par p t) = true := by
+  cases t <;> simp [wrapped, rootEv, evOf]
+
+mutual
+theorem evsOne_srcs (c : Cfg) : ∀ (t : XTree) (a p : Nat),
+    ((evsOne c a p t).1.filter wrapped).map tagOf = srcsOne t
+  | .elem name nsmap attrib text kids tail, a, p => by
+    have ih := evsKids_srcs c kids p (afterCreate c p (.elem name nsmap attrib text kids tail)).2
+    simp only [evsOne, srcsOne, List.cons_append, List.filter_cons, wrapped_evOf, if_true, List.filter_append,
+      afterCreate_unwrapped, List.nil_append, List.map_cons, ih]
+    simp [tagOf, evOf]
+  | .comment s tl, a, p => by simp [evsOne, srcsOne, wrapped, evOf, tagOf, List.filter_cons]
+  | .pi t s tl, a, p => by simp [evsOne, srcsOne, wrapped, evOf, tagOf, List.filter_cons]
+theorem evsKids_srcs (c : Cfg) : ∀ (ts : List XTree) (a p : Nat),
+    ((evsKids c a p ts).1.filter wrapped).map tagOf = srcsKids ts
+  | [], a, p => by simp [evsKids, srcsKids]
+  | t :: ts, a, p => by
+    simp only [evsKids, srcsKids, List.filter_append, tailEvs_unwrapped, List.append_nil, List.map_append]
+    rw [evsOne_srcs c t a p, evsKids_srcs c ts a]
+end
+
+/-- the registry after the loop: one entry per wrapped object of the input, in pre-order, each with the
+kind and name of its object -/
+theorem run_registry (c : Cfg) (par : Option Nat) (p : Nat) (e : XTree) (he : e.isElem = true) :
+    ∃ out, run c (stepsKids e.kids + 1) (enterLoop c par p e) = some out ∧
+      (out.filter wrapped).map tagOf = srcsOne e ∧
+      (out.filter wrapped).map (·.node.pos) = ((iterNode par (buildOne c p e).1).filter
+        fun r => eager r && r.kind != .text).map (·.pos) := by
+  cases e with
+  | comment s tl => simp [XTree.isElem] at he
+  | pi t s tl => simp [XTree.isElem] at he
+  | elem name nsmap attrib text kids tail =>
+    obtain ⟨out, hrun, hout⟩ := run_enterLoop c par p (.elem name nsmap attrib text kids tail) rfl
+    refine ⟨out, hrun, ?_, ?_⟩
+    · -- recompute `out` from the run
+      have hlt := afterCreate_lt c p (.elem name nsmap attrib text kids tail)
+      have hrun' := run_kids c kids (afterCreate c p (.elem name nsmap attrib text kids tail)).2 p [] []
+        (rootEv par p (.elem name nsmap attrib text kids tail) ::
+          (afterCreate c p (.elem name nsmap attrib text kids tail)).1) 1 hlt
+      simp only [enterLoop, XTree.kids] at hrun
+      rw [hrun', run_succ] at hrun
+      simp only [step, Option.some.injEq] at hrun
+      subst hrun
+      simp only [List.cons_append, List.filter_cons, wrapped_rootEv, if_true, List.filter_append,
+        afterCreate_unwrapped, List.nil_append, List.map_cons, evsKids_srcs c kids p]
+      simp [tagOf, rootEv, evOf, srcsOne]
+    · have : (out.filter wrapped).map (·.node.pos) = ((out.map (·.node)).filter (fun r => r.kind != .text)).map (·.pos) := by
+        simp [List.filter_map, List.map_map, Function.comp_def]; rfl
+      rw [this, hout, List.filter_filter]
+      congr 1
+      apply List.filter_congr
+      intro r _
+      exact Bool.and_comm _ _
+
 end EPV.Builder
